@@ -8,6 +8,7 @@ import (
 	"crypto/rand"
 	"crypto/x509"
 	"crypto/x509/pkix"
+	"encoding/pem"
 	"math/big"
 )
 
@@ -79,6 +80,24 @@ func CertOfKind(k int, kind Kind, rawSubject []byte, subject pkix.Name, serial *
 		return nil, err
 	}
 	return x509.ParseCertificate(d)
+}
+
+// ECSigner returns a PKCS#8 PEM key and a self-signed PEM certificate of an ECDSA P-256 signer
+// (for messages co-signed by a second, non-RSA signer).
+func ECSigner() (keyPEM, certPEM []byte) {
+	_, signer := altCA("ecdsa")
+	k := signer.(*ecdsa.PrivateKey)
+	der, err := x509.MarshalPKCS8PrivateKey(k)
+	if err != nil {
+		panic(err)
+	}
+	tmpl := &x509.Certificate{SerialNumber: big.NewInt(0x7501), Subject: pkix.Name{CommonName: "verif ec co-signer"}, NotBefore: NotBefore, NotAfter: NotAfter,
+		KeyUsage: x509.KeyUsageDigitalSignature, BasicConstraintsValid: true, SignatureAlgorithm: x509.ECDSAWithSHA256}
+	cd, err := x509.CreateCertificate(rand.Reader, tmpl, tmpl, &k.PublicKey, k)
+	if err != nil {
+		panic(err)
+	}
+	return pem.EncodeToMemory(&pem.Block{Type: "PRIVATE KEY", Bytes: der}), pem.EncodeToMemory(&pem.Block{Type: "CERTIFICATE", Bytes: cd})
 }
 
 // Variety returns one certificate of every kind for RSA key k (cached).
